@@ -18,7 +18,8 @@ PROPERTY = 'C11'
 RULE = ('connected routines: every connected labelled 4-node graph with two vertex-disjoint edges (binary + distinct '
         'weights), named bridge-rich 5-6 node graphs (path, cycle, star+edge, bow-tie, bridged triangles, tree+chord), '
         'strongly connected 4-6 node digraphs (rings with 0-2 chords, triangles sharing a node); budgets 1-2 iterations '
-        '(thorough 3); latticisers: all n! initial orders x k iterations, default D and a symmetric caller-supplied D; '
+        '(thorough 3); latticisers: all n! initial orders x k iterations, default D and a symmetric caller-supplied D (as float64, '
+        'int64 and uint8 arrays); '
         'randomize_graph_partial_und: masks none / one cell / all-but-one cell; ALL generator answers per '
         'configuration; rejection clause: every disconnected graph n<=5 and every asymmetric 0/1 3-node matrix; '
         'non-trivial configuration = one where at least one candidate swap was refused and one accepted '
@@ -89,10 +90,13 @@ def catalogue(thorough):
                     continue
                 if not und and not ss.strongly_connected(W):
                     continue
-            for Dname, D in (('default', None), ('sym', SYM_D4)):
+            for Dname, D in (('default', None), ('sym', SYM_D4), ('sym_uint8', SYM_D4), ('sym_int', SYM_D4)):
                 if D is not None and n != 4:
                     continue
-                cfgs.append({'fn': fn, 'tag': tag + '_w_D' + Dname, 'W': W, 'params': {'itr': 1, 'D': D}})
+                if Dname in ('sym_uint8', 'sym_int') and not (thorough or tag in ('path4', 'und4_0123', 'dir4_012330', 'dcycle4')):
+                    continue
+                cfgs.append({'fn': fn, 'tag': tag + '_w_D' + Dname, 'W': W,
+                             'params': {'itr': 1, 'D': D, 'D_dtype': {'sym_uint8': 'uint8', 'sym_int': 'int64'}.get(Dname)}})
     # masks
     for tag, n, edges in und4 + rw.NAMED_UND[:4]:
         W = rw.und_from_edges(n, edges, True)
